@@ -130,7 +130,14 @@ pub fn history(r: &Recipe) -> Vec<VecOp> {
             6 => VecOp::Normalize,
             7 => VecOp::AddSmall(limb(s >> 3)),
             8 => VecOp::MulSmall(limb(s >> 3)),
-            9 => VecOp::CloneToB,
+            9 => match s % 3 {
+                0 => VecOp::CloneToB,
+                1 => VecOp::CloneFromA,
+                _ => {
+                    est = CAP / 2; // unknown: b's length
+                    VecOp::CloneFromB
+                }
+            },
             10 => VecOp::Swap,
             11 => VecOp::Write((s >> 8) as usize, limb(s >> 3)),
             _ => {
@@ -275,7 +282,8 @@ pub fn check_history(ops: &[VecOp], cfg: &Cfg, poison: u64, stats: &mut Stats) -
                         }
                     }
                 }
-                VecOp::CloneToB => m.b = m.a.clone(),
+                VecOp::CloneToB | VecOp::CloneFromA => m.b = m.a.clone(),
+                VecOp::CloneFromB => m.a = m.b.clone(),
                 VecOp::Swap => std::mem::swap(&mut m.a, &mut m.b),
                 VecOp::Write(i, v) => {
                     let n = m.a.len();
